@@ -139,6 +139,9 @@ func (p *Population) StoreInnovation(innovation Innovation) {
 }
 
 func (p *Population) Innovations() []Innovation {
+	// guard against concurrent StoreInnovation during parallel reproduction
+	p.mutex.Lock()
+	defer p.mutex.Unlock()
 	return p.innovations
 }
 
